@@ -3,7 +3,7 @@
 From Coq Require Import List ZArith Lia Bool.
 Import ListNotations.
 From CAres.Wire Require Import Cursor Name Record Parse Escape Escape_proofs RefDecode Name_ref Write Write_name Write_host
-     Write_name2 Write_pos Write_patch Write_enc Write_fields Write_query2.
+     Write_name2 Write_pos Write_patch Write_enc Write_fields Write_query2 Wnorm.
 From CAres.Gen Require Import Consts LeafFns Tables.
 Local Open Scope Z_scope.
 
@@ -223,8 +223,14 @@ Definition dec_val (k : fkind) (v : fval) : fval :=
 
 Lemma dec_val_norm k v : fval_wf k v -> norm_fval (dec_val k v) = norm_fval v.
 Proof.
-  destruct k; cbn [fval_wf]; intros H; repeat (destruct H as (? & H)); try (destruct H as [->| ->]); subst; try reflexivity;
-    match goal with H : _ \/ _ |- _ => destruct H as [->| ->]; reflexivity end.
+  destruct k; cbn [fval_wf]; intros H; repeat (destruct H as (? & H)); subst; try reflexivity;
+    match goal with H : _ \/ _ |- _ => destruct H as [G|G]; rewrite G; reflexivity end.
+Qed.
+
+Lemma dec_val_wnorm k v : fval_wf k v -> Wnorm.wnorm_fval (dec_val k v) = Wnorm.wnorm_fval v.
+Proof.
+  destruct k; cbn [fval_wf]; intros H; repeat (destruct H as (? & H)); subst; try reflexivity;
+    match goal with H : _ \/ _ |- _ => destruct H as [G|G]; rewrite G; reflexivity end.
 Qed.
 
 Definition olp_ok (C : list N) (nlp : option (list nameoffset)) : Prop :=
